@@ -55,6 +55,109 @@ CHECKS = {
             '(ZeroDivisionError / TypeError on empty operands) are proved about the pre-fix model and were replayed on the real code.',
             'Float bounds of merges are tested, not proved. "other is unchanged" is checked on the implementation (read before/after) and carried by the store model of C11.',
             'DESIGN.md §6 C06'),
+    'C07': ('Lean 4 proof: inductive invariant of the P² update (per-marker B3 step, placement step) over every linearly ordered field; '
+            'lock-step correspondence of the same definitions run at binary64 against the numpy implementation',
+            'Theorems for every grid with >= 2 markers and every sequence once n >= m: heights sorted, lowest/highest marker = exact '
+            'min/max, ranks integers strictly increasing from 0 to n-1 (inv_step, inv_run); before that the markers are the observations '
+            'in arrival order; q_actual in [0,1] and monotone; np.interp model monotone and within range, hence cdf/quantile read-outs.',
+            'The theorems are over exact ordered fields; the binary64 clause rests on three stated arithmetic facts (DESIGN §6 C07) and is '
+            'exercised by the bit-level lock-step run, not proved.',
+            'DESIGN.md §6 C07'),
+    'C08': ('Lean 4 proof: refinement of the vectorised-code model to a direct transcription of Box 1 of Jain & Chlamtac (relation Abs, '
+            'step and run level); lock-step correspondence plus an independent Python transcription of the paper',
+            'Theorems for every ordered field, grid and sequence: the model state after every observation is the paper algorithm\'s state '
+            '(ranks shifted by one, tie convention "equal counts as below"); QuantileEstimator uses the paper\'s grid; with exactly m '
+            'observations the markers are the exact order statistics.',
+            'Convergence (mass below the estimate within 0.08 of p) is an empirical claim: seeded statistical test, reported as a test.',
+            'DESIGN.md §6 C08'),
+    'C09': ('Lean 4 proof: the dispatch function `call` (element path = the undecorated call, no stream created) and kwargs as a parameter of '
+            'the verified transition system; differential run over ~45 argument kinds',
+            'Theorems: a non-iterator argument yields exactly the direct call result (value or exception) and no stream; only iterators create '
+            'a stream, which is created inert (nothing drawn, no pool, counters untouched); every finished run delivers spec for the one f '
+            'that carries the kwargs.',
+            'Name/docstring preservation (functools.update_wrapper) is interpreter metadata: compared at run time only.',
+            'DESIGN.md §6 C09'),
+    'C10': ('Lean 4 proof: flat-map invariant over all reachable states of the serial machine with any consumer (FInv), laziness theorems; '
+            'history correspondence with instrumented source and inner generators',
+            'Theorems: the exhausted stream is the concatenation of the per-element expansions (None rule per item, empty iterator inserts '
+            'nothing); at every hand-over exactly the items up to the current one were pulled and no further source element was drawn; a '
+            'draw is only possible after the inner iterator signalled exhaustion.',
+            'CPython generator semantics are modelled (explicit machine), not verified.',
+            'DESIGN.md §6 C10'),
+    'C11': ('Lean 4 proof over an ownership model of numpy buffers (who allocates, who writes) for each accumulator update; byte-wise '
+            'snapshots / np.shares_memory / caller-side mutation differential on the real classes',
+            'Theorems for every history of array/scalar arguments: no update of Minimum/Maximum/Mean/Variance/Running*/P² writes a caller '
+            'buffer and every buffer the accumulator holds is its own, so later caller writes are invisible; merges allocate fresh results. '
+            'The pinned-tree counterexample (Minimum aliasing its first argument) is proved about the pre-fix update.',
+            'Which numpy primitive allocates is numpy behaviour (assumed; the correspondence compares the model\'s two facts with what is '
+            'observed). Reading is pure in the model by construction; checked on the implementation.',
+            'DESIGN.md §6 C11'),
+    'C12': ('Lean 4 proof: projection to a component is a homomorphism of the numpy-broadcast operand type, hence commutes with every '
+            'accumulator update and merge (no field axiom used); array-vs-grid-of-scalars differential on the real classes',
+            'Theorems for every well-shaped sequence and component: array Mean/Variance/Min/Max/RunningMean/RunningVariance states (and merges, '
+            'merge trees) project to the scalar accumulator run on that component; Covariance entry (i,j) is the pair accumulator on '
+            'components i,j, symmetric, diagonal = Variance; changing another component changes nothing.',
+            'The vectorised np.where form of P² is compared with per-component scalar estimators on the implementation (components in '
+            'different branches) and in lock-step with the scalar model; it has no separate vector model.',
+            'DESIGN.md §6 C12'),
+    'C13': ('Lean 4 proof: counter invariants over all reachable states of the parallel and serial machines; additivity by a shift '
+            'bisimulation; exact emulation of the "{:.2%}" string',
+            'Theorems: in every reachable state processed = p0 + results taken and yielded = y0 + values handed over (so yielded <= processed '
+            'in parallel mode), for every schedule and consumer; a stream started with counters (p0,y0) behaves exactly like one started '
+            'at (0,0) shifted by (p0,y0).',
+            'The string formatting is modelled (binary64 division and multiplication, round-half-even on the exact value) and compared, not proved.',
+            'DESIGN.md §6 C13'),
+    'C14': ('Lean 4 proof: digitize characterisation, fold invariants of BinSorter for an arbitrary per-bin accumulator, DynamicBinSorter on '
+            'top of the P² invariant; per-observation differential on the real classes',
+            'Theorems: for increasing edges each key has exactly one bin (edge[i] <= key < edge[i+1] or under/overflow); every bin holds the '
+            'fold of its own data in arrival order; counts are conserved; DynamicBinSorter trains on the first nbins observations, then adds '
+            'each observation to exactly one bin whose current edges contain it; edges sorted and spanning [min,max]; counts sum to n - nbins.',
+            'np.digitize is modelled as "number of edges <= key".',
+            'DESIGN.md §6 C14'),
+    'C15': ('Lean 4 proof: exact counting over the finite space of all random choice sequences (induction on the stream length); scripted '
+            'random source and exhaustive enumeration on the implementation',
+            'Theorems: size min(n,k), distinct positions, first k verbatim, requested ranges; among the n!/k! choice sequences every k-subset '
+            'of positions is produced by exactly (n-k)! (probability 1/C(n,k)); each position is retained by a fraction k/n.',
+            'random.randint being uniform and independent is trusted.',
+            'DESIGN.md §6 C15'),
+    'C16': ('Lean 4 proof: take-last / stable-merge lemmas for CacheAccumulator, top-k (multiset) lemmas for CacheMaximum incl. '
+            'topK(topK A ++ topK B) = topK(A ++ B); virtual-clock differential on the real classes',
+            'Theorems: CacheAccumulator holds the last min(n,k) observations; merging two time-sorted streams = one cache over their stable '
+            'time-ordered interleaving; CacheMaximum holds min(n,k) seen observations (any timeout), without timeout exactly the k largest '
+            'keys, listed monotonically, invariant under permutation; merge = k largest keys of the union; counts add. The pinned-tree merge '
+            'counterexample is proved.',
+            'heapq is modelled as a multiset with pop-min, deque(maxlen) as take-last; (key,time) pairs are assumed distinct (stated input restriction).',
+            'DESIGN.md §6 C16'),
+    'C17': ('Lean 4 proof: closed-form weights of the exponential running mean by induction, convexity bounds, warm-up equivalence with the '
+            'plain accumulators; rational-vs-float differential with lifetime changes',
+            'Theorems for every ordered field: RunningMean = sum of w_i x_i with the stated weights (non-negative, summing to one), value '
+            'between min and max for any lifetime >= 1, constants reproduced, RunningVariance/Covariance = Variance/Covariance while '
+            'n <= lifetime, the lifetime setter acts on every part.',
+            'Floating-point rounding is compared with a tolerance, not proved.',
+            'DESIGN.md §6 C17'),
+    'C18': ('Lean 4 proof: generator-as-machine model of savestream with every exit edge, normal-form theorem for all next/close histories; '
+            'every stop point x stop kind on the real functions',
+            'Theorems: the tap hands through exactly the source prefix one at a time; for every history that ends with the consumer done '
+            '(closed after >= 1 element, exhausted, source failure) the archive replays exactly the elements handed over; the archive is '
+            'unreadable while open; replay order is independent of member names.',
+            'zipfile and pickle are trusted (members in write order, readable once closed, round-trip).',
+            'DESIGN.md §6 C18'),
+    'C19': ('Lean 4 proof: machines for observe / observe_time / simplecache and a model of star import evaluated on the real __all__; '
+            'instrumented differential incl. a virtual clock',
+            'Theorems: observe/observe_time are transparent and lazy, observers are called in order exactly on every interval-th element '
+            '(resp. when the clock advanced by more than the interval since the last observed element; the first is observed under the clock '
+            'assumption); simplecache yields exactly the length-L windows and rejects non-iterators; a star import succeeds iff every '
+            'advertised name is bound.',
+            'The clock assumption (non-decreasing readings above the interval) is the property\'s own.',
+            'DESIGN.md §6 C19'),
+    'C20': ('Lean 4 proof: invariant, deadlock-freedom and decreasing measure of the sender x receiver product system over a lock-step REQ/REP '
+            'socket model; all interleavings for small n on the real functions over a substituted transport',
+            'Theorems for every finite stream and every interleaving: the alternation of neither socket is ever violated, the received list '
+            'is always a prefix of the sent one, every maximal run is finite and ends with received = sent, receiver ended and sender '
+            'returned; the sender draws at most one element beyond the requests seen; either side may start.',
+            'Real ZeroMQ is not exercised (pyzmq absent, cannot be installed): the transport is a substituted lock-step module, as the '
+            'property itself states.',
+            'DESIGN.md §6 C20'),
 }
 
 
